@@ -255,6 +255,10 @@ def compare(r, spec, m, F, G):
 
 
 def check_case(spec):
+    if C.slice_is_ambiguous(spec):
+        # a window that makes a 3-variable cloud/rain file ambiguous with
+        # a 5-variable one (format without variable count) is dropped
+        spec = dict(spec, slice=None)
     r = Result()
     C.reset_guards()
     m = C.model_of(spec)
